@@ -348,7 +348,20 @@ Fixpoint first_failure (rs : list (res unit)) (idx : nat) : option (nat * res un
 
 (* ------------------------------------------------------------------ consensus.go VerifyUncles *)
 
-Record block := { bl_header : header; bl_version : Z; bl_uncles : list header }.
+(* bl_uncles: the uncle headers, h_hash = their hash under the version of their OWN height (what
+   uncle.SetVersion(GetBlockVersion(uncle.Number)) returns).  bl_uncles_stamped: the hashes of the same headers as the
+   chain reader hands them over: core.BlockChain.GetBlock calls block.SetVersion(version of the INCLUDING block), which
+   stamps that version on every uncle; the two differ when uncle and including block sit on opposite sides of a
+   version-changing fork (HF5 / HF8 / HF9). *)
+Record block := { bl_header : header; bl_version : Z; bl_uncles : list header; bl_uncles_stamped : list bytes }.
+
+(* under which version VerifyUncles takes the identity of the uncles already included by the ancestors *)
+Inductive uncle_identity :=
+| OwnHeight   (* the code: uncles.Add(uncle.SetVersion(byte(chain.Config().GetBlockVersion(uncle.Number)))) *)
+| AsStamped.  (* uncle.Hash() on the header as returned by GetBlock (the including block's version) *)
+
+Definition past_uncle_hashes (m : uncle_identity) (a : block) : list bytes :=
+  match m with OwnHeight => map h_hash (bl_uncles a) | AsStamped => bl_uncles_stamped a end.
 
 (* consensus.ChainReader.GetBlock(hash, number) *)
 Fixpoint get_block (blocks : list block) (hash : bytes) (number : Z) : option block :=
@@ -369,7 +382,7 @@ Fixpoint mem_hash (k : bytes) (s : list bytes) : bool :=
 
 (* the loop `for i := 0; i < 7; i++` gathering ancestors and their uncles; returns the
    decremented `number` as well, because the later `number > 15000` tests read it *)
-Fixpoint gather (fuel : nat) (blocks : list block) (parent : bytes) (number : Z)
+Fixpoint gather_v (m : uncle_identity) (fuel : nat) (blocks : list block) (parent : bytes) (number : Z)
          (anc : list (bytes * header)) (unc : list bytes) : Z * list (bytes * header) * list bytes :=
   match fuel with
   | O => (number, anc, unc)
@@ -377,11 +390,14 @@ Fixpoint gather (fuel : nat) (blocks : list block) (parent : bytes) (number : Z)
     match get_block blocks parent number with
     | None => (number, anc, unc)
     | Some a =>
-      gather f blocks (h_parent (bl_header a)) (u64 (number - 1))
-             ((h_hash (bl_header a), bl_header a) :: anc)
-             (map h_hash (bl_uncles a) ++ unc)
+      gather_v m f blocks (h_parent (bl_header a)) (u64 (number - 1))
+               ((h_hash (bl_header a), bl_header a) :: anc)
+               (past_uncle_hashes m a ++ unc)
     end
   end.
+
+(* the code re-stamps every past uncle with the version of its own height *)
+Definition gather := gather_v OwnHeight.
 
 (* a 32-byte hash written as a hexadecimal numeral *)
 Definition h32 (n : N) : bytes := be_fixed 32 n.
@@ -438,15 +454,17 @@ Fixpoint uncle_loop (c : cfg) (chain : list header) (now : Z) (number : Z) (bloc
   end.
 
 (* consensus.go VerifyUncles (PowMode other than ModeFullFake) *)
-Definition verify_uncles (c : cfg) (chain : list header) (blocks : list block) (now : Z) (b : block) : res unit :=
+Definition verify_uncles_v (m : uncle_identity) (c : cfg) (chain : list header) (blocks : list block) (now : Z) (b : block) : res unit :=
   let n := Z.of_nat (length (bl_uncles b)) in
   let bh := bl_header b in
   if n >? max_uncles then Err ETooManyUncles
   else if (n >? max_uncles_hf5) && is_hf c 5 (h_number bh) then Err ETooManyUncles
   else
-    let '(number, anc, unc) := gather 7 blocks (h_parent bh) (u64 (big_uint64 (h_number bh) - 1)) [] [] in
+    let '(number, anc, unc) := gather_v m 7 blocks (h_parent bh) (u64 (big_uint64 (h_number bh) - 1)) [] [] in
     if bl_version b =? 0 then Err EVersionUnset
     else
       let anc := (h_hash bh, bh) :: anc in
       let unc := h_hash bh :: unc in
       uncle_loop c chain now number (h_hash bh) (h_parent bh) (bl_uncles b) anc unc.
+
+Definition verify_uncles := verify_uncles_v OwnHeight.
